@@ -131,6 +131,7 @@ void out_list32(const char *k, const uint32_t *p, size_t n) {
  * library leaves unwritten (residue of the destination) differ between the
  * poison modes of the purity check */
 static unsigned g_poison; /* 0 = no stack poisoning */
+unsigned vdrv_poison(void) { return g_poison; }
 uint8_t gbuf_canary(size_t i) { return (uint8_t)((0xA5 ^ (i * 7)) ^ (g_poison * 0x3B)); }
 /* The usable area ends flush against an inaccessible page when align == 0
  * (a store beyond `size` faults even if it rewrites the byte already there);
